@@ -720,7 +720,6 @@ func runC10(c *Ctx) {
 	})
 }
 
-
 // mustTerm finds the term of the value in fn whose term string is t (used to re-match a pattern
 // against a condition that was first seen as a string).
 func mustTerm(tb *TB, fn *ssa.Function, t string) *Term {
